@@ -384,12 +384,12 @@ Proof.
   rewrite IH by lia. reflexivity.
 Qed.
 (* the cells of the block after put_cells: before, inside and behind the written run *)
-Lemma firstn_splice {A} (l : list A) o o' vs : (o' <= o)%nat -> (o <= length l)%nat -> firstn o' (put_cells l o vs) = firstn o' l.
+Lemma firstn_put_cells {A} (l : list A) o o' vs : (o' <= o)%nat -> (o <= length l)%nat -> firstn o' (put_cells l o vs) = firstn o' l.
 Proof.
   intros H H'. unfold put_cells. rewrite firstn_app, firstn_firstn, firstn_length, !Nat.min_l by lia.
   replace (o' - o)%nat with 0%nat by lia. cbn [firstn]. apply app_nil_r.
 Qed.
-Lemma skipn_splice {A} (l : list A) o vs : (o <= length l)%nat -> skipn o (put_cells l o vs) = vs ++ skipn (o + length vs) l.
+Lemma skipn_put_cells {A} (l : list A) o vs : (o <= length l)%nat -> skipn o (put_cells l o vs) = vs ++ skipn (o + length vs) l.
 Proof. intro H. unfold put_cells. rewrite skipn_app, firstn_length, Nat.min_l, Nat.sub_diag by lia. rewrite skipn_all2 by (rewrite firstn_length; lia). reflexivity. Qed.
 
 Lemma skipn_cons_nth_error {A} (l : list A) o v : nth_error l o = Some v -> skipn o l = v :: skipn (S o) l.
